@@ -260,6 +260,13 @@ func (c *ProcCase) Prepare() error {
 
 func (c *ProcCase) Env() *Env { return c.env }
 
+// SetDocOrder chooses the document order of the sequenceFlow elements (see Definitions.FlowOrder).
+func (c *ProcCase) SetDocOrder(flowOrder int, flowsFirst bool) {
+	if c.Prog != nil && c.Prog.Defs != nil {
+		c.Prog.Defs.FlowOrder, c.Prog.Defs.FlowsFirst = flowOrder, flowsFirst
+	}
+}
+
 func mkEvent(kind, ref string) event.IEvent {
 	if kind == "message" {
 		// "m#op": message m carrying operation op
